@@ -126,8 +126,7 @@ Proof.
   { unfold assignable_p. cbn [token post]. rewrite S1. unfold call_A. cbn [run]. rewrite Sub. reflexivity. }
   assert (Body : run (go T (S f)) (stmt_assign_or_expr T (C p (TIdent x :: TK k :: pp e ++ TK KNewline :: rest) ov false))
                  = Ok (SAssign op (ARead x) (emb e), C (rev (pp e) ++ TK k :: TIdent x :: p) (TK KNewline :: rest) ov false)).
-  { unfold stmt_assign_or_expr. rewrite run_ptry, Probe. cbn [token post]. rewrite Hop.
-    unfold stmt_assignment. rewrite run_ptry, Probe. cbn [token post]. rewrite Hop. rewrite S2.
+  { unfold stmt_assign_or_expr. rewrite run_ptry, Probe. cbn [token post]. rewrite Hop. rewrite S2.
     unfold expression. rewrite !run_ptry. unfold call_E. cbn [run].
     rewrite (H (S f) ltac:(lia)). reflexivity. }
   unfold look3. rewrite S1. cbn [token post]. rewrite run_ptry.
@@ -261,7 +260,13 @@ Proof.
                    = Ok (SExpr (emb e), C (rev (pp e) ++ p) (TK KNewline :: rest) ov false)).
     { unfold stmt_assign_or_expr. rewrite run_ptry. unfold assignable_p. rewrite Tk1, S1'.
       unfold call_A. cbn [run]. rewrite (H1 (S f) ltac:(lia)). cbn [get_A run ok]. rewrite Tl.
-      apply Expr. lia. }
+      (* not a blob instantiation: the expression goes on after the assignable the probe has parsed *)
+      pose proof (ta_err T ps p r ov false (tl ++ TK KNewline :: rest) C2 C1 Fl) as TE.
+      rewrite Eq. destruct (type_assignable (C p (TIdent r :: pp_posts ps ++ tl ++ TK KNewline :: rest) ov false));
+        try contradiction. cbv iota.
+      unfold expression_after, call_E. rewrite run_ptry. cbn [run].
+      rewrite <- (prec_ident T (pt_entry T) p r ps (tl ++ TK KNewline :: rest) ov false (S f) _ _ C1 C2 Fl (H1 (S f) ltac:(lia))).
+      rewrite <- Eq. rewrite (H (S (S f)) ltac:(lia)). reflexivity. }
     unfold look3. rewrite Tk1, S1'. rewrite run_ptry.
     (* the second token is `.`, `[`, `(`, an operator or the newline: none of the definition forms *)
     assert (T2 : forall k, token (C (TIdent r :: p) (pp_posts ps ++ tl ++ TK KNewline :: rest) ov false) = TK k ->
